@@ -6,14 +6,14 @@ from props import dwtfam, c01
 
 ID = 'C02'
 PROPS_MODULE = 'Props.C02'
-THEOREMS = ['C02_line_pr', 'C02_line_pr_exact', 'C02_kernel_window', 'C02_level_1d', 'C02_multilevel_1d', 'C02_circular_pr', 'C02_level_1d_per', 'C02_multilevel_1d_per', 'C02_PRcond_lazy', 'C02_pywt_kernels', 'C02_error_bound_Z', 'C02_haar_kernel']
+THEOREMS = ['C02_line_pr', 'C02_line_pr_exact', 'C02_kernel_window', 'C02_level_1d', 'C02_multilevel_1d', 'C02_circular_pr', 'C02_level_1d_per', 'C02_multilevel_1d_per', 'C02_PRcond_lazy', 'C02_level_2d', 'C02_multilevel_2d', 'C02_multilevel_2d_per', 'C02_pywt_kernels', 'C02_error_bound_Z', 'C02_haar_kernel']
 VO = ['theories/Props/C02.vo', 'theories/Props/C01.vo', 'theories/Props/C10.vo', 'theories/Run/RunDwt.vo', 'theories/Run/RunSpec.vo']
 RULE = ('correspondence A: analysis and synthesis models (afb1d/sfb1d operator matrices, Functions, level loops incl. the unpad rule) vs the code, '
         'exact; correspondence B: closed forms vs pywt.dwt/idwt; oracle: x == DWTInverse(DWTForward(x)) cropped to the extent, all modes, J, sizes '
         '(odd, shorter than the filter), 1-D and 2-D; tolerance max(1e-9, 4 * PyWavelets own round-trip error) * gain. distinct by configuration.')
 TRUSTED = TRUSTED_COMMON + ['the kernel condition PRcond is a hypothesis of the exact theorems; for the 106 PyWavelets banks its residual (exact dyadic taps regenerated from the installed package) is bounded in Coq by C02_pywt_kernels (2^-34 in l1; dmey 2^-7) and turned into a reconstruction error bound by C02_error_bound_Z; float rounding of the transforms themselves is measured by the oracle only']
 ASSUMES = ['theorems: master reconstruction identity on the line; one level and every J of DWT1DForward/DWT1DInverse on the tensor-level model, all five modes (periodization under the guard L <= even length of every level; '
-           'below it: KF-PER-SHORT), under the filter-only kernel condition PRcond; circular PR for every even length; 2-D composition through the column pass and level loop: correspondence + oracle']
+           'below it: KF-PER-SHORT), under the filter-only kernel condition PRcond; circular PR for every even length; 2-D: one level and every J of DWTForward/DWTInverse with separate row/column banks in the four non-periodization modes (C02_level_2d, C02_multilevel_2d) and in periodization under the guard (C02_multilevel_2d_per)']
 
 
 def corr_jobs(tier, rng):
